@@ -1,7 +1,7 @@
 """C19 — segmented fetch (DESIGN §4 C19)."""
 import ast
 
-from .common import ctx, returns, calls_in_ctx, reach_from_succ, site, srcs_text, bound_args, orient, shared_obligations
+from .common import explore_sym, ctx, returns, calls_in_ctx, reach_from_succ, site, srcs_text, bound_args, orient, shared_obligations
 from ..flow import callee_attr
 from ..loader import AnalysisError, norm
 
@@ -180,108 +180,146 @@ def _rest(R, P, g, rt, exprs):
     R.need(len(fetches) >= 2 and yields, 'segment_fetcher: fetch / yield sites not found')
     F = {n.id for n in fetches}
     Y = {n.id for n in yields}
-    probs = []
-    for t in g.cfg.nodes:
-        if t.kind == 'test' and 'to_number(' in ast.unparse(t.ast) and 'to_number(name[-1])' not in lasttext(t):
-            R.fail('C19.LOP.2', f'{SF} :: segment number of the last component', SF, t.ast, f'the segment number is read from `{norm(t.ast)}`, not from the last name component', site(g, t.ast))
-    zts = [t for t in g.cfg.nodes if t.kind == 'test' and isinstance(t.ast, ast.Compare) and 'to_number' in ast.unparse(t.ast)
-           and isinstance(t.ast.comparators[0], ast.Constant) and t.ast.comparators[0].value == 0 and isinstance(t.ast.ops[0], ast.Eq)]
-    for f in fetches:
-        # (a) from a fetch, without passing a yield, neither another fetch nor the normal exit is reachable
-        #     (exception: a discovery answer that is not segment 0 is discarded and the fetch restarts from segment 0)
-        discovery = any(isinstance(c.func, ast.Name) and c.func.id == 'retry' and any(isinstance(a_, ast.Constant) and a_.value is True for a_ in c.args)
-                        for c in f.calls())
-        skip_ok = {(t.id, False) for t in zts} if discovery else set()
-        r = reach_from_succ(g.cfg, f, removed_nodes=Y, removed_edges=skip_ok, follow_exc=False)
-        if g.cfg.exit.id in r:
-            probs.append(('a fetched segment can be dropped: the generator ends without yielding it', f.ast))
-        if any(x in r for x in F):
-            probs.append(('a fetched segment can be skipped: the next one is requested before it was yielded', f.ast))
+    # Walk of the generator under each valuation of the three facts it branches on:
+    #   SEG  the first answer's last component is a segment      ZERO  ... and it is segment 0
+    #   FIN  the answer's FinalBlockId equals its last component (taken the same for every answer of one walk)
+    # with a small state: is a fetched answer waiting to be yielded, how many were yielded, the integer locals (segment counter)
+    # and the segment number last put into the name. Expected: every answer is yielded once before the next request or the end (only a
+    # discovery answer that is a segment other than 0 is discarded), request number k asks for the segment after the k yielded so far,
+    # nothing is requested after a final / unsegmented answer, the generator does not end before one.
+    import copy as _copy
+    CAP = 3
+    found = {}
+
+    def note(msg, node):
+        found.setdefault((msg, node.id), (msg, node.ast))
+
+    def text_at(e, n):
+        return ast.unparse(_Last(n).visit(_copy.deepcopy(e))) if n is not None else ast.unparse(e)
+
+    def mk_atom(SEG, ZERO, FIN):
+        def atom(e, st, n):
+            if isinstance(e, ast.Compare) and len(e.ops) == 1 and isinstance(e.ops[0], (ast.Eq, ast.NotEq, ast.Is, ast.IsNot)):
+                l, r = text_at(e.left, n), text_at(e.comparators[0], n)
+                pos = isinstance(e.ops[0], (ast.Eq, ast.Is))
+                pair = {l, r}
+                if pair == {'Component.get_type(name[-1])', 'Component.TYPE_SEGMENT'}:
+                    return SEG == pos
+                if pair == {'Component.to_number(name[-1])', '0'}:
+                    return ZERO == pos
+                if pair == {'meta.final_block_id', 'name[-1]'}:
+                    return FIN == pos
+                if pair == {'meta.final_block_id', 'None'} and FIN:
+                    return not pos
+            if isinstance(e, ast.Attribute) and ast.unparse(e) == 'meta.final_block_id' and FIN:
+                return True
+            return None
+        return atom
+
+    def ival(e, env):
+        if isinstance(e, ast.Constant) and isinstance(e.value, int) and not isinstance(e.value, bool):
+            return min(e.value, CAP) if e.value >= 0 else None
+        if isinstance(e, ast.Name):
+            return env.get(e.id)
+        if isinstance(e, ast.BinOp) and isinstance(e.op, ast.Add):
+            a_, b_ = ival(e.left, env), ival(e.right, env)
+            return None if a_ is None or b_ is None else min(a_ + b_, CAP)
+        return None
+
+    def seg_of(e, env):
+        """segment number a name expression ends in: `... + [Component.from_segment(X)]`, `[*.., Component.from_segment(X)]`, `Component.from_segment(X)`"""
+        for x in ast.walk(e):
+            if isinstance(x, ast.Call) and ast.unparse(x.func).endswith('from_segment') and x.args:
+                return ('v', ival(x.args[0], env))
+        return None
+
+    def mk_transfer(SEG, ZERO, FIN):
+        def transfer(n, st):
+            d = dict(st)
+            env = dict(d.get('env', ()))
+            if n.id in F:
+                disc = any(isinstance(c.func, ast.Name) and c.func.id == 'retry' and any(isinstance(a_, ast.Constant) and a_.value is True for a_ in c.args)
+                           for c in n.calls())
+                if d.get('pending'):
+                    if not (d.get('disc') and SEG and not ZERO):
+                        note('a fetched segment can be skipped: the next one is requested before it was yielded', n)
+                if d.get('nfetch', 0) >= 1:
+                    if not SEG:
+                        note('an unsegmented object leads to further segment Interests', n)
+                    elif FIN and d.get('nyield', 0) >= 1:
+                        note('fetching continues after the segment designated final', n)
+                if not disc:
+                    req = d.get('req')
+                    for c in n.calls():
+                        if isinstance(c.func, ast.Name) and c.func.id == 'retry' and c.args and seg_of(c.args[0], env):
+                            req = seg_of(c.args[0], env)
+                    if req is None:
+                        note('the segment component of the next Interest is not built from the segment counter', n)
+                    elif req[1] is None or (req[1] != d.get('nyield', 0) and req[1] < CAP):
+                        note(f'the Interest after {d.get("nyield", 0)} yielded segment(s) asks for segment {req[1] if req[1] is not None else "?"}', n)
+                    d['req'] = None
+                d['pending'], d['disc'] = True, disc
+                d['nfetch'] = min(d.get('nfetch', 0) + 1, CAP)
+            if n.id in Y:
+                if not d.get('pending'):
+                    note('a segment can be yielded twice', n)
+                elif d.get('disc') and SEG and not ZERO:
+                    note('the first answer is yielded although it is not segment 0', n)
+                d['pending'] = False
+                d['nyield'] = min(d.get('nyield', 0) + 1, CAP)
+            if n.kind == 'stmt' and isinstance(n.ast, (ast.Assign, ast.AugAssign)):
+                if isinstance(n.ast, ast.AugAssign):
+                    tg, val = [n.ast.target], ast.BinOp(left=n.ast.target, op=n.ast.op, right=n.ast.value)
+                else:
+                    tg, val = n.ast.targets, n.ast.value
+                for t in tg:
+                    if isinstance(t, ast.Name) and t.id == 'name' or ast.unparse(t) == 'name[-1]':
+                        sg = seg_of(val, env)
+                        if sg is not None:
+                            d['req'] = sg
+                    if isinstance(t, ast.Name) and n.id not in F:
+                        v = ival(val, env)
+                        if v is None:
+                            env.pop(t.id, None)
+                        else:
+                            env[t.id] = v
+                    elif isinstance(t, ast.Tuple):
+                        for x in t.elts:
+                            if isinstance(x, ast.Name):
+                                env.pop(x.id, None)
+            d['env'] = tuple(sorted(env.items()))
+            return tuple(sorted(d.items(), key=lambda kv: kv[0]))
+        return transfer
+    nstates = 0
+    for SEG, ZERO, FIN in ((False, False, False), (False, False, True), (True, True, True), (True, True, False), (True, False, True), (True, False, False)):
+        reached = explore_sym(g, mk_atom(SEG, ZERO, FIN), mk_transfer(SEG, ZERO, FIN), (), node_aware=True)
+        nstates += len(reached)
+        for (nid, st) in reached:
+            if nid != g.cfg.exit.id:
+                continue
+            d = dict(st)
+            if d.get('pending'):
+                found.setdefault(('a fetched segment can be dropped: the generator ends without yielding it', -1),
+                                 ('a fetched segment can be dropped: the generator ends without yielding it', g.f.node))
+            elif SEG and not FIN:
+                found.setdefault(('the generator can end before the segment designated final was fetched', -1),
+                                 ('the generator can end before the segment designated final was fetched', g.f.node))
+            elif d.get('nyield', 0) == 0:
+                found.setdefault(('the generator can end without yielding anything', -1), ('the generator can end without yielding anything', g.f.node))
+    R.paths_examined += nstates
+    probs = list(found.values())
     for y in yields:
-        # (b) no second yield without a new fetch in between
-        r = reach_from_succ(g.cfg, y, removed_nodes=F, follow_exc=False)
-        if any(x in r for x in Y):
-            probs.append(('a segment can be yielded twice', y.ast))
         # yielded value = content of the latest fetch (element 2)
         yv = [x for x in y.walk() if isinstance(x, ast.Yield)][0].value
         srcs = g.sources(y, yv) if yv is not None else []
         if not srcs or not all(s.kind == 'unpack' and s.extra == 2 and 'retry(' in ast.unparse(s.expr) for s in srcs):
             probs.append((f'yields {srcs_text(srcs)} instead of the Content of the fetched Data', y.ast))
-    inst = f'{SF} :: one yield per fetch'
-    R.paths_examined += len(fetches) + len(yields)
-    if probs:
-        for (what, construct) in probs:
-            R.fail('C19.LOP.2', inst, SF, construct, what, site(g, construct))
-    else:
-        R.ok('C19.LOP.2', inst, site(g, yields[0].ast), f'{len(fetches)} fetch sites, {len(yields)} yield sites')
-    # segment counter
-    segaug = [n for n in g.cfg.nodes if n.kind == 'stmt' and isinstance(n.ast, ast.AugAssign) and isinstance(n.ast.target, ast.Name)]
-    inst = f'{SF} :: segment number stepping'
-    probs = []
-    if not segaug and any(n.kind == 'for' and isinstance(n.ast.iter, ast.Call) and ast.unparse(n.ast.iter.func).rsplit('.', 1)[-1] in ('count', 'range')
-                          for n in g.cfg.nodes):
-        raise AnalysisError('segment_fetcher: segment numbers come from an iterator (itertools.count / range), a form the stepping rule does not read')
-    if len(segaug) != 1 or not (isinstance(segaug[0].ast.op, ast.Add) and isinstance(segaug[0].ast.value, ast.Constant) and segaug[0].ast.value.value == 1):
-        probs.append(('segment number does not advance by exactly 1', segaug[0].ast if segaug else g.f.node))
-    else:
-        sv = segaug[0].ast.target.id
-        loopfetch = [f for f in fetches if g.cfg.path_exists(f, f) and f.id in reach_from_succ(g.cfg, f)]
-        for f in loopfetch:
-            # every cycle through the loop fetch passes the increment
-            r = reach_from_succ(g.cfg, f, removed_nodes={segaug[0].id}, follow_exc=False)
-            if f.id in r:
-                probs.append(('the same segment can be requested again without advancing the segment number', f.ast))
-        # the requested name uses the counter
-        sets = [n for n in g.cfg.nodes if n.kind == 'stmt' and isinstance(n.ast, ast.Assign)
-                and any(ast.unparse(t) in ('name[-1]', 'name') for t in n.ast.targets) and 'from_segment' in ast.unparse(n.ast.value)]
-        okset = bool(sets)
-        # ... or handed to the fetch helper directly as the name to request
-        direct = [c.args[0] for f in loopfetch for c in f.calls() if isinstance(c.func, ast.Name) and c.func.id == 'retry' and c.args
-                  and 'from_segment' in ast.unparse(c.args[0])]
-        if not sets and direct:
-            okset = all(ast.unparse(a_) in (f'name[:-1] + [Component.from_segment({sv})]', f'[*name[:-1], Component.from_segment({sv})]',
-                                            f'list(name[:-1]) + [Component.from_segment({sv})]') for a_ in direct)
-        for s_ in sets:
-            v_ = ast.unparse(s_.ast.value)
-            tg = ast.unparse(s_.ast.targets[0])
-            if tg == 'name[-1]' and v_ != f'Component.from_segment({sv})':
-                okset = False
-            if tg == 'name' and v_ not in (f'name[:-1] + [Component.from_segment({sv})]', f'[*name[:-1], Component.from_segment({sv})]',
-                                           f'list(name[:-1]) + [Component.from_segment({sv})]'):
-                okset = False
-        if not okset:
-            probs.append(('the segment component of the next Interest is not built from the segment counter', sets[0].ast if sets else g.f.node))
-        elif sets and loopfetch and not all(g.cfg.dominates(sets[0], f) for f in loopfetch):
-            probs.append(('the next Interest is sent before its segment component is set', loopfetch[0].ast))
-        # initial values
-        inits = [(n, n.ast.value.value) for n in g.cfg.nodes if n.kind == 'stmt' and isinstance(n.ast, ast.Assign)
-                 and len(n.ast.targets) == 1 and ast.unparse(n.ast.targets[0]) == sv and isinstance(n.ast.value, ast.Constant)]
-        # ... or handed over through another local (`first = 1 / 0 ... seg = first`): the constants that local is bound to, where it is bound
-        for n in g.cfg.nodes:
-            if n.kind == 'stmt' and isinstance(n.ast, ast.Assign) and len(n.ast.targets) == 1 and ast.unparse(n.ast.targets[0]) == sv \
-                    and isinstance(n.ast.value, ast.Name):
-                for s_ in g.sources(n, n.ast.value):
-                    if s_.kind == 'expr' and isinstance(s_.expr, ast.Constant) and s_.node is not None:
-                        inits.append((s_.node, s_.expr.value))
-        zero_tests = [t for t in g.cfg.nodes if t.kind == 'test' and isinstance(t.ast, ast.Compare) and 'to_number' in ast.unparse(t.ast)
-                      and isinstance(t.ast.comparators[0], ast.Constant) and t.ast.comparators[0].value == 0 and isinstance(t.ast.ops[0], ast.Eq)]
-        if sorted(v for (_, v) in inits) != [0, 1] or len(zero_tests) != 1:
-            probs.append((f'segment counter starts from {sorted(v for (_, v) in inits)}', inits[0][0].ast if inits else g.f.node))
-        else:
-            zt = zero_tests[0]
-            for (n, v) in inits:
-                lab = (v == 0)      # remove the edge that legitimately leads here: v==1 <- True edge, v==0 <- False edge
-                if n.id in g.cfg.reachable(removed_edges={(zt.id, not lab)}):
-                    probs.append((f'start segment {v} chosen on the wrong branch of `{norm(zt.ast)}`', n.ast))
-                if v == 1:
-                    # segment 0 must have been yielded first
-                    if n.id in g.cfg.reachable(removed_nodes=Y):
-                        probs.append(('starts from segment 1 without having yielded segment 0', n.ast))
+    inst = f'{SF} :: trace of requests and yields under the 6 valuations of (segmented, segment 0, final)'
     if probs:
         for (what, construct) in probs:
             R.fail('C19.LOP.2', inst, SF, construct if not isinstance(construct, ast.AsyncFunctionDef) else 'def segment_fetcher', what, site(g, construct))
     else:
-        R.ok('C19.LOP.2', inst, site(g, segaug[0].ast))
+        R.ok('C19.LOP.2', inst, site(g, yields[0].ast), f'{len(fetches)} fetch sites, {len(yields)} yield sites, {nstates} (node, state) pairs walked')
     # no in-place mutation of the fetched name: the same tuple completes every pending Interest the Data satisfies, so the
     # list is shared with other consumers (e.g. a second fetch of the same object)
     R.ob('C19.PRV.1', 'the name list returned by a fetch is not modified in place (it is shared with every other Interest the Data satisfied)')
@@ -303,44 +341,4 @@ def _rest(R, P, g, rt, exprs):
                        'concurrent fetch of the same object sees the change (wrong final-block test / next segment)', site(g, n.ast))
     if not nmut:
         R.ok('C19.PRV.1', f'{SF} :: fetched name never mutated', site(g, g.f.node))
-    # final-block tests: `meta.final_block_id == name[-1]` True edge returns; located after a yield
-    fb = [t for t in g.cfg.nodes if t.kind == 'test' and 'final_block_id' in ast.unparse(t.ast)]
-    inst = f'{SF} :: final-block tests'
-    probs = []
-    if len(fb) < 2:
-        probs.append((f'{len(fb)} final-block tests; the segmented paths (first = segment 0, following) each need one', g.f.node))
-    for t in fb:
-        tl = ast.parse(lasttext(t), mode='eval').body
-        okshape = isinstance(tl, ast.Compare) and isinstance(tl.ops[0], ast.Eq) and \
-            {ast.unparse(tl.left), ast.unparse(tl.comparators[0])} == {'meta.final_block_id', 'name[-1]'}
-        if not okshape:
-            probs.append((f'final-block test is `{norm(t.ast)}`', t.ast))
-            continue
-        rT = reach_from_succ(g.cfg, t, True, follow_exc=False)
-        if any(x in rT for x in F):
-            probs.append(('fetching continues after the segment designated final', t.ast))
-        if t.id in g.cfg.reachable(removed_nodes=Y, follow_exc=False):
-            probs.append(('final-block test can run before the segment was yielded', t.ast))
-    if probs:
-        for (what, construct) in probs:
-            R.fail('C19.LOP.2', inst, SF, construct if not isinstance(construct, ast.AsyncFunctionDef) else 'def segment_fetcher', what, site(g, construct))
-    else:
-        R.ok('C19.LOP.2', inst, site(g, fb[0].ast), f'{len(fb)} tests')
-    # unsegmented path: type test, yield once, return
-    ut = [t for t in g.cfg.nodes if t.kind == 'test' and 'TYPE_SEGMENT' in ast.unparse(t.ast)]
-    for t in ut:
-        if 'get_type(name[-1])' not in lasttext(t):
-            R.fail('C19.LOP.2', f'{SF} :: segment test on the last component', SF, t.ast, f'whether the answer is a segment is decided on `{norm(t.ast)}`, not on the last name component',
-                   site(g, t.ast))
-    inst = f'{SF} :: unsegmented object'
-    if len(ut) != 1 or not isinstance(ut[0].ast, ast.Compare):
-        R.fail('C19.LOP.2', inst, SF, 'def segment_fetcher', 'no test whether the first answer is a segment', site(g, g.f.node))
-    else:
-        t = ut[0]
-        lab = isinstance(t.ast.ops[0], ast.NotEq)       # label of the unsegmented edge
-        r = reach_from_succ(g.cfg, t, lab, follow_exc=False)
-        if any(x in r for x in F):
-            R.fail('C19.LOP.2', inst, SF, t.ast, 'an unsegmented object leads to further segment Interests', site(g, t.ast))
-        else:
-            R.ok('C19.LOP.2', inst, site(g, t.ast))
     R.assumptions += ['express_interest contract (C03/C05)', 'loss patterns and producer behaviour are not decided']
